@@ -33,3 +33,28 @@ def ref_bonds(pos, els, cell, margin=0.0):
             elif d < c:
                 out.append((i, j))
     return out, gray
+
+
+def ref_bonds_fast(pos, els, cell, margin=0.0, chunk=200):
+    """vectorised ref_bonds for hundreds to thousands of atoms; wide cells only (every perpendicular width more than
+    twice the largest cutoff), so that the nearest image is among the 27 neighbours of the rounded fractional separation"""
+    pos = np.asarray(pos, float); n = len(pos)
+    rad = np.array([COVALENT_RADII[e] for e in els]); nm = np.array([e in NON_METALS for e in els])
+    out = []; gray = []
+    if cell is not None:
+        cell = np.asarray(cell, float); inv = np.linalg.inv(cell)
+        offs = np.array([(i, j, k) for i in (-1, 0, 1) for j in (-1, 0, 1) for k in (-1, 0, 1)], dtype=float) @ cell
+    for i0 in range(0, n, chunk):
+        d = pos[i0:i0 + chunk, None, :] - pos[None, :, :]
+        if cell is not None:
+            f = d @ inv; d = (f - np.round(f)) @ cell
+            dist = np.min(np.linalg.norm(d[:, :, None, :] + offs[None, None, :, :], axis=3), axis=2)
+        else:
+            dist = np.linalg.norm(d, axis=2)
+        cut = rad[i0:i0 + chunk, None] + rad[None, :] + 0.45 * (nm[i0:i0 + chunk, None] | nm[None, :])
+        ii, jj = np.where((dist < cut + margin))
+        for a, b in zip(ii, jj):
+            a = int(a) + i0; b = int(b)
+            if a < b:
+                (gray if abs(dist[a - i0, b] - cut[a - i0, b]) <= margin else out).append((a, b))
+    return sorted(out), sorted(gray)
